@@ -240,7 +240,8 @@ def run_registry(res, deadline, only=None):
             res.traces += 1
             res.nontrivial += 1
             try:
-                r1 = result_value(fn(*args))
+                o1 = fn(*args)
+                r1 = result_value(o1)
                 res.transitions += 1
             except observe.ObserverError:
                 raise
@@ -269,6 +270,25 @@ def run_registry(res, deadline, only=None):
                 res.fail('second-call-differs', case, feats, expected=_s(r1), observed=_s(r2))
                 res.outcome('DIFFERS')
                 continue
+            # deferred observation: a result that is still alive must be unchanged after later calls on other arguments
+            # (a result aliasing a scratch buffer shared between calls changes only then).  The kept object is fresh
+            # and not observed before the later calls (observing may detach it from shared memory).
+            import types
+            if not isinstance(o1, types.GeneratorType):
+                try:
+                    kept = fn(*b())
+                    for other in builders:
+                        fn(*other())
+                    res.transitions += 1 + len(builders)
+                    later = result_value(kept)
+                except observe.ObserverError:
+                    raise
+                except Exception:
+                    later = r1
+                if later != r1:
+                    res.fail('earlier-result-changed-by-later-call', case, feats, expected=_s(r1), observed=_s(later))
+                    res.outcome('ALIASED')
+                    continue
             res.outcome('pure')
     res.sample({'registry_functions': [n for n, _, _ in registry()][:12]})
 
